@@ -1,5 +1,10 @@
 """C09 - at most one event per replaceable address; newer wins, older refused."""
+import random
+
+import common as C
 from dbengine import DbEngine
+from dbgen import HistGen, AUTHORS
+from engine import Verdict
 
 
 class Engine(DbEngine):
@@ -9,6 +14,42 @@ class Engine(DbEngine):
     aspects = {'addrs.find', 'query', 'ids.has', 'ids.hash', 'store.result', 'store.errclass', 'stats.main'}
     quick = (200, 35)
     thorough = (5000, 80)
-    rule = "address-heavy histories: stores at the same and neighbouring addresses (other author / other kind / other d) in every timestamp order (older, newer, equal, resubmitted, after removal), boundary kinds 0,3,9999,10000,19999,20000,29999,30000,39999,40000, d values empty, 'x','x\\\\0','x\\\\0\\\\0', 181/182/183-byte values sharing a 182-byte prefix, 476/477 bytes, second d tags. oracle: store result and every id's/address's observation equal the abstract store (at most one holder per address by construction there). Also the exhaustive 65536-kind classification sweep. non-trivial = history with >= 2 stores"
+    rule = "address-heavy histories: stores at the same and neighbouring addresses (other author / other kind / other d) in every timestamp order (older, newer, equal, resubmitted, after removal), boundary kinds 0,3,9999,10000,19999,20000,29999,30000,39999,40000, d values empty, 'x','x\\\\0','x\\\\0\\\\0', 181/182/183-byte values sharing a 182-byte prefix, 476/477 bytes, second d tags. oracle: store result and every id's/address's observation equal the abstract store (at most one holder per address by construction there). Also the exhaustive 65536-kind classification sweep. non-trivial = history with >= 2 stores. Plus arrival orders that only exist with several submitters: 2-3 events of one address (distinct created_at, sometimes an older holder already stored) offered by 2-3 threads of one Store under the schedule controller; whatever the interleaving, when all have returned exactly the newest is retrievable"
     trusted = DbEngine.db_trusted
     assumptions = ['a parameterized kind without a d tag has no address (what the code does)']
+    races = {'quick': 120, 'thorough': 2500}
+
+    def make_race(self, rng):
+        sub = random.Random(rng.getrandbits(64))
+        g = HistGen(sub, {'new': 3, 'addr': 2}, sub.choice([0, 1, 3])).run()
+        pk = bytes([0xC9]) * 32          # an author the setup history never uses: the address starts empty
+        kind = sub.choice([0, 3, 10000, 10002, 19999, 30000, 30023, 39999])
+        tags = [[b'd', sub.choice([b'', b'x', b'room'])]] if kind >= 30000 else []
+        n = sub.choice([2, 2, 3])
+        times = sub.sample([100, 150, 200, 250, 300], n + 1)
+        evs = [g.new_event(kind=kind, pk=pk, created=t, tags=[list(t_) for t_ in tags]) for t in times]
+        for i, e in enumerate(evs):
+            e['content'] = b'v%d' % i
+            e['id'] = __import__('dbgen').fake_id(e)
+        setup = [g.render_op(op) for op in g.ops]
+        contenders = evs[:n]
+        if sub.random() < 0.6:
+            setup.append('store ' + C.t_event(evs[n]))     # a holder already there (older or newer than the contenders)
+            allev = evs
+        else:
+            allev = contenders
+        progs = [['store ' + C.t_event(e)] for e in contenders]
+        line = self.race_line(sub, g, setup, progs, [e['id'] for e in allev])
+        newest = max(range(len(allev)), key=lambda i: allev[i]['created'])
+        return ('address-race:%d' % n, line), {'newest': newest, 'n': len(allev)}
+
+    def judge_race(self, meta, out):
+        resp, flags = self.race_parse(out)
+        if len(flags) < meta['n']:
+            return Verdict(corr_ok=False, cls='unparsable-output', detail=out[:120], outcome='unparsable')
+        have = [i for i in range(meta['n']) if flags[i].startswith('1')]
+        if have != [meta['newest']]:
+            return Verdict(oracle_ok=False, cls='address-holders-after-concurrent-stores',
+                           detail='after all submitters returned the address is held by the events #%s of %d (by id lookup); it must be held by exactly the newest (#%d)' % (have, meta['n'], meta['newest']),
+                           outcome='holders')
+        return Verdict(outcome='race-ok', nontrivial=True)
